@@ -25,6 +25,16 @@ thread_local! {
     static SCRIPT: RefCell<Vec<(String, u32, f64)>> = const { RefCell::new(Vec::new()) };
     static DETAIL: RefCell<usize> = const { RefCell::new(0) };
     static REFINE_LOG: RefCell<bool> = const { RefCell::new(false) };
+    static STEP_LOG: RefCell<bool> = const { RefCell::new(false) };
+}
+
+/// Log every search direction with the vectors it was composed from (off by default).
+pub fn set_step_log(on: bool) {
+    STEP_LOG.with(|d| *d.borrow_mut() = on);
+}
+
+pub fn step_log() -> bool {
+    is_on() && STEP_LOG.with(|d| *d.borrow())
 }
 
 /// Log the steps of the KKT solver's iterative refinement (off by default: there are
